@@ -93,11 +93,16 @@ class MinimizerScipyOptimize(MinimizerBase):
 
     @property
     def parameter_errors(self):
-        if self._par_err_outdated:
-            self._par_err_outdated = False  # the previous values serve as parameter scale while the Hessian is calculated
-            _cov_mat = self.cov_mat
+        if self._par_err_outdated and self.did_fit:
+            # the stored values (which also serve as parameter scale and as step sizes after a reset) are those of the last
+            # minimization: they are not overwritten here, so that what is stored does not depend on what has been asked for
+            self._par_err_outdated = False  # the stored values serve as parameter scale while the Hessian is calculated
+            try:
+                _cov_mat = self.cov_mat
+            finally:
+                self._par_err_outdated = True
             if _cov_mat is not None:
-                self._par_err = np.sqrt(np.diag(_cov_mat))
+                return np.sqrt(np.diag(_cov_mat))
         return self._par_err.copy()
 
     @parameter_errors.setter
